@@ -229,7 +229,7 @@ func (s *Sim) checkRelease(n *SendNode, what, name, md5 string) {
 }
 
 func (s *Sim) checkStatusAnswer(d *gkDeco, name string, code int) {
-	if s.on("C05") && s.sc.Mode == "w2" && s.sc.Extra["c05age"] != nil && code == sts.ConfirmNone {
+	if s.on("C05") && s.sc.Mode == "w2" && (s.sc.Extra["c05age"] != nil || s.sc.Extra["c05restart"] != nil) && code == sts.ConfirmNone {
 		// single-version names: once delivered, the file is known - from memory
 		// or, after ageing, from the log, which a question makes the receiver read
 		for _, a := range s.ob.arrivals {
@@ -286,7 +286,7 @@ func (s *Sim) checkStatusAnswer(d *gkDeco, name string, code int) {
 // ---------------------------------------------------------------- final
 
 func (s *Sim) finalOracles() {
-	if s.on("C03", "C06", "C07") && !s.settledFinal && !s.inconclusive && s.ob.stopStep < 0 {
+	if s.on("C03", "C06", "C07", "C17") && !s.settledFinal && !s.inconclusive && s.ob.stopStep < 0 {
 		s.violate(s.sc.Prop, "not-delivered-within-bound", "after %s without faults the system is not settled: %s", s.sc.Settle, s.unsettledWhy)
 	}
 	if s.on("C05", "C06", "C07") {
